@@ -15,6 +15,11 @@ func (te *tableEngine) tableGameOpen() error {
 	defer te.lock.Unlock()
 	te.verifHook("open.enter")
 
+	// a closed or released table does not open another hand
+	if te.isReleased || te.table.State.Status == TableStateStatus_TableClosed {
+		return nil
+	}
+
 	if te.table.State.GameState != nil {
 		fmt.Printf("[DEBUG#tableGameOpen] Table (%s) game (%s) with game count (%d) is already opened.\n", te.table.ID, te.table.State.GameState.GameID, te.table.State.GameCount)
 		return nil
